@@ -328,3 +328,70 @@ Proof.
          snprintf_path (bs "/etc" ++ 47 :: p)] [] None)
      (Some (c :: nm')) sfx dl cm)); reflexivity.
 Qed.
+
+(* ---------- the path an object records (C17): always absolute ---------- *)
+Lemma lb_squeeze_abs : forall p, exists r, squeeze p = 47 :: r.
+Proof.
+  intros p. unfold squeeze.
+  destruct (norm_comps (split_on 47 p) []) as [|c cs]; [eexists; reflexivity|].
+  cbn [map concat]. eexists. cbn [app]. reflexivity.
+Qed.
+
+Lemma lb_resolve_abs : forall fuel t q, (exists r, q = 47 :: r) -> exists r, fs_resolve fuel t q = 47 :: r.
+Proof.
+  induction fuel as [|f IH]; intros t q Hq; cbn [fs_resolve].
+  - destruct (str_eqb q dev_null); [exact Hq|].
+    destruct (tlookup t q) as [[c u g|tg u g|u g]|]; exact Hq.
+  - destruct (str_eqb q dev_null); [exact Hq|].
+    destruct (tlookup t q) as [[c u g|tg u g|u g]|]; try exact Hq.
+    apply IH. apply lb_squeeze_abs.
+Qed.
+
+Lemma lb_resolve_step : forall f t q,
+  fs_resolve (S f) t q =
+  if str_eqb q dev_null then q
+  else match tlookup t q with
+       | Some (NLink target _ _) =>
+           fs_resolve f t (squeeze (match target with 47 :: _ => target | _ => dirname q ++ 47 :: target end))
+       | _ => q
+       end.
+Proof. reflexivity. Qed.
+
+Theorem real_name_absolute : forall t p, exists r, real_name t p = 47 :: r.
+Proof.
+  intros t p. unfold real_name.
+  destruct p as [|c p']; [apply lb_resolve_abs, lb_squeeze_abs|].
+  destruct c as [|q]; [apply lb_resolve_abs, lb_squeeze_abs|].
+  do 6 (destruct q as [q|q|]; try (apply lb_resolve_abs, lb_squeeze_abs)).
+  eexists; reflexivity.
+Qed.
+
+(* a name that starts with '/' is recorded as given *)
+Theorem real_name_of_absolute : forall t p, real_name t (47 :: p) = 47 :: p.
+Proof. reflexivity. Qed.
+
+(* any other name that is not a symbolic link is recorded in its normalised form below the working directory *)
+Theorem real_name_of_relative_file : forall t c p,
+  c <> 47 ->
+  str_eqb (squeeze (c :: p)) dev_null = false ->
+  match tlookup t (squeeze (c :: p)) with Some (NLink _ _ _) => False | _ => True end ->
+  real_name t (c :: p) = squeeze (c :: p).
+Proof.
+  intros t c p Hc Hd Hl.
+  assert (R : real_name t (c :: p) = fs_resolve 8 t (squeeze (c :: p))).
+  { unfold real_name. destruct c as [|q]; [reflexivity|].
+    do 6 (destruct q as [q|q|]; try reflexivity). congruence. }
+  rewrite R. change 8%nat with (S 7). rewrite lb_resolve_step, Hd.
+  destruct (tlookup t (squeeze (c :: p))) as [[c0 u g|tg u g|u g]|]; try reflexivity. contradiction.
+Qed.
+
+(* what econf_readFile hands back carries an absolute path, whatever name was given *)
+Theorem read_file_api_path : forall t g cb p dl cm kf,
+  r2_obj (read_file_api t g cb p dl cm) = Some kf ->
+  get_path kf = real_name t p /\ exists r, get_path kf = 47 :: r.
+Proof.
+  intros t g cb p dl cm kf H. unfold read_file_api in H.
+  destruct (go_res (gate t g cb (mkPopts false false) p dl cm)) as [e|kf'] eqn:G; cbn [r2_obj] in H; [discriminate H|].
+  inversion H; subst kf'. pose proof (lb_gate_path _ _ _ _ _ _ _ _ G) as P.
+  split; [exact P|]. rewrite P. apply real_name_absolute.
+Qed.
